@@ -188,6 +188,10 @@ class Monitor:
             return
         cpu = self.cpu
         op = ins[0]
+        if op in ('ijmp', 'pop') and self.events and self.events[-1]['tick'] == n:
+            # the RETURN trapped (no GOSUB pending in that routine): nothing
+            # was popped, and the handler may already run on another frame
+            return
         if op == 'frame':
             self.frames[id(cpu.cur_frame)] = [len(cpu.stack), 0, cpu.cur_frame]
         elif op == 'call':
